@@ -32,7 +32,7 @@ def reSearch(pattern, string, flags=None) -> Match[str]:
 
 def _removeBlanks(tier: Dict) -> None:
     def hasContent(entry):
-        return entry[-1] != ""
+        return entry[-1].strip() != ""
 
     tier["entries"] = filter(hasContent, tier["entries"])
 
